@@ -3,4 +3,10 @@ import raftfam
 
 
 def run(ctx):
-    return raftfam.run_family(ctx)
+    level = raftfam.run_family(ctx)
+    if not ctx.replay:
+        # a node that is caught up in the ZERO group by a catalogue snapshot keeps the raft stores (log, snapshot: the
+        # acknowledged writes) of the replicas it goes on hosting: cmd/cat, CatalogueReplayTrace ReplicaStoreLost
+        import clusfam
+        clusfam.catalogue_replay(ctx, only="ReplicaStoreLost")
+    return level
